@@ -169,6 +169,26 @@ def variants(program):
     add('sanitizer-only-leading-slash', 'mutant', PATHM, slash_only_leading,
         {'SAN-BODY'})
 
+    def sanitizer_pathlib(tree):
+        fun = find_func(tree, 'sanitize_filename')
+        ok = remove_stmt(fun, lambda s: isinstance(s, ast.If) and
+                         "'/' in name" in txt(s.test))
+        ok = ok and remove_stmt(fun, lambda s: isinstance(s, ast.If) and
+                                "'..'" in txt(s.test))
+        if not ok:
+            return False
+        rets = [i for i, s in enumerate(fun.body)
+                if isinstance(s, ast.Return)]
+        fun.body[rets[-1]:rets[-1]] = parse_stmts(
+            "from pathlib import PurePosixPath\n"
+            "if PurePosixPath(name).name != name:\n"
+            "    raise ValueError(f'{name!r} is not a valid filename')")
+        return True
+    add('sanitizer-single-component-via-pathlib', 'mutant', PATHM,
+        sanitizer_pathlib, {'SAN-BODY'},
+        note="seeded C19-2: PurePosixPath('..').name == '..': the parent "
+             "directory is accepted")
+
     # ---- twins
     def eq_zero(tree):
         fun = find_func(tree, 'run')
